@@ -25,6 +25,8 @@ func ByNames(names []string) []Script {
 			out = append(out, &Evidence{Tag: "ev"})
 		case "olvm-one":
 			out = append(out, &OLVM{OneTx: true})
+		case "olvm-mixed":
+			out = append(out, &OLVM{Mixed: true})
 		case "olvm":
 			out = append(out, &OLVM{})
 		case "staking-exit":
